@@ -2,7 +2,7 @@
     Model: Model/Cleanup.v ([cleanup d repos now shardMerging] = cmd/zoekt-sourcegraph-indexserver/cleanup.go
     after the repair `fix: indexserver cleanup: tombstone unassigned repos in compound shards even when
     they also have simple shards`).  Proofs: Proofs/CleanupProofs.v. *)
-From ZV Require Import Lib.Base Model.Cleanup Proofs.CleanupProofs Proofs.CleanupUnassigned Proofs.CleanupTrash.
+From ZV Require Import Lib.Base Model.Cleanup Proofs.CleanupProofs Proofs.CleanupUnassigned Proofs.CleanupTrash Proofs.CleanupRevive.
 Open Scope Z_scope.
 
 (** assigned_kept.  For every well-formed index directory, every assigned set, every time and both
@@ -47,6 +47,16 @@ Theorem C32_unassigned_not_searchable_after : forall d repos now sm id,
   forall g e, In g (d_index (cleanup d repos now sm)) -> In e (alive_entries g) -> e_id e <> id.
 Proof. intros d repos now sm id H1 H2 H3. exact (unassigned_not_alive_after d repos now sm id H1 H2 H3). Qed.
 Print Assumptions C32_unassigned_not_searchable_after.
+
+(** assigned_untombstoned (shardMerging = true): an assigned repository that is not alive in the index, has no
+    restorable trashed shards, and is tombstoned in a compound shard is alive again afterwards, in the
+    compound shard getTombstonedRepos selects (latest commit date, later file on ties).
+    (With shardMerging = false the shard may be deleted first: same open finding as above.) *)
+Theorem C32_assigned_untombstoned : forall d repos now id,
+  wf d -> In id repos -> ~ In id (ids_of (ix d)) -> ~ In id (trash_keys d now) -> In id (tomb_ids (d_index d)) ->
+  exists b, tomb_pick (tomb_candidates (d_index d) id) = Some b /\ alive_at b id (cleanup d repos now true).
+Proof. intros. eapply assigned_untombstoned; eauto. Qed.
+Print Assumptions C32_assigned_untombstoned.
 
 (** trash_deleted_only_if_old_or_conflict (contrapositive): a trashed shard of a repository that is not
     assigned (assigned ones are restored), none of whose trashed shards is older than 24 h
@@ -108,3 +118,8 @@ Example ex_big_result :
   option_map (fun f => map (fun e => (e_id e, e_tomb e)) (f_repos f)) (find_file 4 (d_index x))
     = Some [(1, true); (4, false); (5, true); (6, false)]%N.
 Proof. vm_compute. repeat split; reflexivity. Qed.
+
+(* repository 6 satisfies the hypotheses of C32_assigned_untombstoned in ex_big *)
+Example ex_big_revive_hyps :
+  In 6%N ex_repos /\ ~ In 6%N (ids_of (ix ex_big)) /\ ~ In 6%N (trash_keys ex_big 0) /\ In 6%N (tomb_ids (d_index ex_big)).
+Proof. vm_compute. repeat split; try (intros H; repeat (destruct H as [H|H]; [discriminate|]); exact H); auto 10. Qed.
